@@ -1035,6 +1035,102 @@ def shared_state(prog, fi):
     return out
 
 
+def loop_carried(loop):
+    """Reads, in the body of `loop`, of a local name that is assigned
+    somewhere in that body but NOT on every path of the same iteration before
+    the read: the value may be left over from the previous iteration (or be
+    unbound in the first).  Names that are only ever updated in place
+    (counters: x += 1, x = x + 1) are exempt.  Returns [(name, node)]."""
+    assigned, plain = set(), set()
+    for st in ast.walk(loop):
+        if isinstance(st, ast.Assign):
+            for t in st.targets:
+                for x in ast.walk(t):
+                    if isinstance(x, ast.Name) and isinstance(x.ctx,
+                                                              ast.Store):
+                        assigned.add(x.id)
+                        if as_update(st) is None:
+                            plain.add(x.id)
+        elif isinstance(st, (ast.For, ast.comprehension)):
+            for x in ast.walk(st.target):
+                if isinstance(x, ast.Name):
+                    assigned.add(x.id)
+                    plain.add(x.id)
+        elif isinstance(st, ast.AugAssign) and isinstance(st.target,
+                                                          ast.Name):
+            assigned.add(st.target.id)
+    cand = assigned & plain
+    if isinstance(loop, ast.For):
+        init = {x.id for x in ast.walk(loop.target)
+                if isinstance(x, ast.Name)}
+    else:
+        init = set()
+    out = []
+
+    def reads(e, have):
+        comp_bound = set()
+        for x in ast.walk(e):
+            if isinstance(x, ast.comprehension):
+                comp_bound |= {y.id for y in ast.walk(x.target)
+                               if isinstance(y, ast.Name)}
+        for x in ast.walk(e):
+            if isinstance(x, ast.Name) and isinstance(x.ctx, ast.Load) and \
+                    x.id in cand and x.id not in have and \
+                    x.id not in comp_bound:
+                out.append((x.id, x))
+
+    def block(stmts, have):
+        have = set(have)
+        for st in stmts:
+            if isinstance(st, ast.Assign):
+                reads(st.value, have)
+                for t in st.targets:
+                    for x in ast.walk(t):
+                        if isinstance(x, ast.Name) and isinstance(
+                                x.ctx, ast.Store):
+                            have.add(x.id)
+                        elif isinstance(x, ast.Name):
+                            reads(x, have)
+            elif isinstance(st, ast.AugAssign):
+                reads(st.value, have)
+                reads(st.target, have) if not isinstance(
+                    st.target, ast.Name) else None
+            elif isinstance(st, ast.If):
+                reads(st.test, have)
+                a = block(st.body, have)
+                b = block(st.orelse, have)
+                have = a & b
+            elif isinstance(st, (ast.For, ast.While)):
+                if isinstance(st, ast.For):
+                    reads(st.iter, have)
+                    inner = have | {x.id for x in ast.walk(st.target)
+                                    if isinstance(x, ast.Name)}
+                else:
+                    reads(st.test, have)
+                    inner = have
+                block(st.body, inner)
+                block(st.orelse, have)
+            elif isinstance(st, ast.Try):
+                a = block(st.body, have)
+                for h in st.handlers:
+                    block(h.body, have)
+                have = block(st.finalbody, have & a) if st.finalbody \
+                    else have
+            elif isinstance(st, ast.With):
+                for it in st.items:
+                    reads(it.context_expr, have)
+                have = block(st.body, have)
+            elif isinstance(st, (ast.FunctionDef, ast.ClassDef)):
+                continue
+            else:
+                for ch in ast.iter_child_nodes(st):
+                    if isinstance(ch, ast.expr):
+                        reads(ch, have)
+        return have
+    block(loop.body, init)
+    return out
+
+
 def view_writes(fnode, root_attrs=("img", "rmsimg", "bkgimg", "dcurve")):
     """In-place writes (subscript stores, augmented assignments, fill /
     sort / put) through a name that may be a VIEW of one of the shared image
